@@ -15,11 +15,15 @@ Ev == Rec[l]
 Sgn(v) == IF v > 0 THEN 1 ELSE IF v < 0 THEN -1 ELSE 0
 Abs(v) == IF v < 0 THEN -v ELSE v
 
+\* "lat": lattice x = k/16, the first iteration is scripted.  "lat2": the first iteration is a scripted
+\* rejected proposal, the second one is the lattice proposal k (every iteration draws fresh coordinates).
+\* "fine": lattice x = k/64 (acceptance region only: finer resolution of the region's boundary and interior).
 LatRule ==
     LET kd == Ev.kind  v == Ev.k  s == SumSq(v) IN
     IF kd = "circle" /\ s = 0 THEN TRUE            \* all-zero proposal: two adversarial words, outside the quantifier
     ELSE /\ Ev.res = "Ok"
-         /\ Ev.acc = Accept(kd, v)                  \* accepted in the first iteration iff the documented region says so
+         /\ Ev.words % Dim(kd) = 0                  \* Dim words per loop iteration
+         /\ Ev.acc = Accept(kd, v)                  \* accepted in the scripted iteration iff the documented region says so
          /\ Ev.acc =>
               CASE kd \in {"disc", "ball"} -> \A i \in 1..Len(v) : Ev.q[i] = v[i] * 4096        \* identity output (x * 2^16)
                 [] kd = "circle" -> LET n == CircNum(v) IN                                       \* q = floor(out * 2^20)
@@ -40,7 +44,13 @@ RandRule ==
     /\ IF Ev.kind \in {"circle", "sphere"} THEN Ev.degenerate \/ Within(Ev.nrm, FOne(Ev.ft), 8)
        ELSE LLE(Ev.nrm, FOne(Ev.ft))
 
-Rule == CASE Ev.op = "lat" -> LatRule [] Ev.op = "rand" -> RandRule [] OTHER -> FALSE
+FineRule == LET kd == Ev.kind v == Ev.k IN
+            (kd = "circle" /\ SumSq(v) = 0) \/
+            (/\ Ev.res = "Ok" /\ Ev.words % Dim(kd) = 0
+             /\ Ev.acc = AcceptD(kd, v, 4096)
+             /\ (Ev.acc /\ kd \in {"disc", "ball"}) => \A i \in 1..Len(v) : Ev.q[i] = v[i] * 1024)      \* x * 2^16, x = k/64
+
+Rule == CASE Ev.op \in {"lat", "lat2"} -> LatRule [] Ev.op = "fine" -> FineRule [] Ev.op = "rand" -> RandRule /\ Ev.words % Dim(Ev.kind) = 0 [] OTHER -> FALSE
 
 TInit == l = 1 /\ kind = "trace" /\ pc = "trace" /\ k = <<>> /\ words = 0 /\ iters = 0
 TNext == /\ l <= Len(Rec) /\ l' = l + 1 /\ UNCHANGED vars
